@@ -256,6 +256,16 @@ class Equals(ParametrizedDependentType):
         else:
             return Union[tuple(sorted(types, key=lambda t: t.__qualname__))]
 
+    def __eq__(self, other):
+        return (
+            type(self) is type(other)
+            and set(self.parameters) == set(other.parameters)
+            and self.bound == other.bound
+        )
+
+    def __hash__(self):
+        return hash(frozenset(self.parameters)) ^ hash(self.bound)
+
     def check(self, value):
         return value in self.parameters
 
